@@ -209,7 +209,10 @@ func corrJoins(fn *ssa.Function) map[*ssa.BasicBlock][]int {
 	}
 	out := map[*ssa.BasicBlock][]int{}
 	// nil tests of the function: value -> (block whose entry implies non-nil, block whose entry implies nil)
-	type impl struct{ nonNil, isNil []*ssa.BasicBlock }
+	type impl struct {
+		nonNil, isNil         []*ssa.BasicBlock
+		edgeNonNil, edgeIsNil [][2]*ssa.BasicBlock // critical edges: the test's block jumps straight into a join
+	}
 	tests := map[ssa.Value]*impl{}
 	for _, b := range fn.Blocks {
 		if len(b.Instrs) == 0 {
@@ -241,17 +244,34 @@ func corrJoins(fn *ssa.Function) map[*ssa.BasicBlock][]int {
 		}
 		if len(nn.Preds) == 1 {
 			tests[v].nonNil = append(tests[v].nonNil, nn)
+		} else {
+			tests[v].edgeNonNil = append(tests[v].edgeNonNil, [2]*ssa.BasicBlock{b, nn})
 		}
 		if len(nl.Preds) == 1 {
 			tests[v].isNil = append(tests[v].isNil, nl)
+		} else {
+			tests[v].edgeIsNil = append(tests[v].edgeIsNil, [2]*ssa.BasicBlock{b, nl})
 		}
 	}
+	var joinOf *ssa.BasicBlock // the block whose incoming edge from `at` is being decided
 	known := func(v ssa.Value, at *ssa.BasicBlock) int { // 1 non-nil, 0 nil, -1 unknown
 		if IsNilConst(v) {
 			return 0
 		}
 		if certainlyNonNil(v) {
 			return 1
+		}
+		if t := tests[v]; t != nil && joinOf != nil {
+			for _, e := range t.edgeNonNil {
+				if e[0] == at && e[1] == joinOf {
+					return 1
+				}
+			}
+			for _, e := range t.edgeIsNil {
+				if e[0] == at && e[1] == joinOf {
+					return 0
+				}
+			}
 		}
 		if t := tests[v]; t != nil {
 			for _, s := range t.nonNil {
@@ -296,6 +316,7 @@ func corrJoins(fn *ssa.Function) map[*ssa.BasicBlock][]int {
 			if i >= len(phi.Edges) {
 				continue
 			}
+			joinOf = b
 			switch known(phi.Edges[i], b.Preds[i]) {
 			case 1: // non-nil
 				any = true
@@ -1293,7 +1314,65 @@ func CallHeeded(g ssa.CallInstruction, fw FailWhen, boolFail *bool) (bool, strin
 	if forwardedAsError(g, v) {
 		return true, ""
 	}
+	if joinedErrHeeded(g, v) {
+		return true, ""
+	}
 	return ok, why
+}
+
+// joinedErrHeeded: the guard's error is tested only after it was joined with another error in one variable
+// (`err = a(); if err == nil { err = g() }; if err != nil { return err }`). Decided by two fact-carrying explorations: (A) from the call,
+// knowing the error is not nil, only failing returns are reached; (B) from the entry, without entering the call's block, no possibly
+// successful return is reached (the other error's non-nil edge is the only way round, and it carries that fact into the joined test).
+func joinedErrHeeded(g ssa.Instruction, v ssa.Value) bool {
+	fn := g.Parent()
+	if len(TestsOf(v, ErrNonNil)) > 0 {
+		return false // has tests of its own: the ordinary analysis applies
+	}
+	toPhi := false
+	if refs := v.Referrers(); refs != nil {
+		for _, r := range *refs {
+			if _, isPhi := r.(*ssa.Phi); isPhi {
+				toPhi = true
+			}
+		}
+	}
+	if !toPhi {
+		return false
+	}
+	failVals := Derived(v)
+	bad, seen := 0, 0
+	judge := func(ret *ssa.Return, f map[ssa.Value]bool) {
+		if ret.Block() == fn.Recover {
+			return
+		}
+		seen++
+		res := fn.Signature.Results()
+		for i := 0; i < res.Len() && i < len(ret.Results); i++ {
+			if !IsErrorType(res.At(i).Type()) {
+				continue
+			}
+			rv := ResolveSpill(ret.Results[i])
+			if f[rv] || f[ret.Results[i]] || certainlyNonNil(rv) {
+				return
+			}
+		}
+		if ClassifyReturn(ret, failVals, nil) != RetFailure {
+			bad++
+		}
+	}
+	for _, s := range g.Block().Succs {
+		reachKnowing(g.Block(), s, map[ssa.Value]bool{v: true}, nil, judge)
+	}
+	if bad > 0 || seen == 0 {
+		return false
+	}
+	bad, seen = 0, 0
+	if g.Block() == fn.Blocks[0] {
+		return true
+	}
+	reachKnowing(nil, fn.Blocks[0], map[ssa.Value]bool{}, map[*ssa.BasicBlock]bool{g.Block(): true}, judge)
+	return bad == 0
 }
 
 // forwardedAsError: the error value v of call g reaches only returns of g's function in the error position, and every
@@ -1626,6 +1705,22 @@ func reachKnowing(pred, start *ssa.BasicBlock, nonNil map[ssa.Value]bool, avoid 
 							visit(b, b.Succs[1], facts)
 						}
 						return
+					}
+					if v != nil {
+						// undecided here: the edge on which v is not nil teaches the fact (error and pointer values only)
+						if _, isIface := v.Type().Underlying().(*types.Interface); isIface {
+							nn, other := b.Succs[0], b.Succs[1]
+							if bo.Op == token.EQL {
+								nn, other = b.Succs[1], b.Succs[0]
+							}
+							nf := map[ssa.Value]bool{v: true}
+							for k := range facts {
+								nf[k] = true
+							}
+							visit(b, nn, nf)
+							visit(b, other, facts)
+							return
+						}
 					}
 				}
 			}
